@@ -1374,10 +1374,10 @@ Proof.
     intros c Ec. inversion Ec; subst c. split; [exact Hpath |]. split; [reflexivity |]. split.
     + apply comp_vars_wf_intro.
       * rewrite Forall_forall in Hfrom |- *. intros v Hv. exact (proj2 (Hfrom v Hv)).
-      * rewrite Forall_forall. intros f Hf. apply in_map_iff in Hf. destruct Hf as [[eid f'] [E Hin]].
+      * rewrite Forall_forall. intros f Hfm. apply in_map_iff in Hfm. destruct Hfm as [[eid f'] [E Hin]].
         cbn in E. subst f'. exact (proj2 (C7 eid f Hin)).
-    + unfold glob_vals. cbn [fs_out o' oh_global]. intros f Hf.
-      destruct (Hglob f Hf) as [H | H]; [left; exact H |]. right.
+    + unfold glob_vals. cbn [fs_out o' oh_global]. intros f Hfg.
+      destruct (Hglob f Hfg) as [H | H]; [left; exact H |]. right.
       unfold comp_vids. rewrite collect_unfold, map_app. apply in_or_app.
       destruct H as [H | [eid [fo [Hin Hc]]]].
       * left. rewrite Hvids. exact H.
@@ -1397,18 +1397,25 @@ Proof.
   subst a. exists l0, b. split; [reflexivity | exact H1].
 Qed.
 
+Lemma pfilter_vars_snoc : forall fs f, pfilter_vars (fs ++ [f]) = pfilter_vars fs ++ pfilter_vars [f].
+Proof. intros. unfold pfilter_vars. rewrite flat_map_app. reflexivity. Qed.
+
 Lemma fold_post_filters_ok : forall path vid ds tags post errors,
-  tags_ok tags path ->
+  tags_ok tags path -> tys_wf (pfilter_vars post) ->
   exists tags' post' errors', fold_post_filters tags path vid ds post errors = Ok (tags', post', errors') /\
-                              tags_ok tags' path.
+                              tags_ok tags' path /\ tys_wf (pfilter_vars post').
 Proof.
-  intros path vid ds. induction ds as [| d r IH]; intros tags post errors Ht.
-  - do 3 eexists; split; [reflexivity | exact Ht].
+  intros path vid ds. induction ds as [| d r IH]; intros tags post errors Ht Hw.
+  - do 3 eexists; split; [reflexivity | split; assumption].
   - cbn [fold_post_filters].
     pose proof (count_type_filters_ok [d]) as Hd. inversion Hd as [| x xs Hd1 _]; subst.
     destruct (make_filter_expr_total tags path vid "@fold.count" count_type d Ht count_type_wf Hd1)
       as [[tags1 res] [Hm Ht1]].
-    rewrite Hm. cbn [bind snd fst]. destruct res as [e | [op rhs]]; apply IH; exact Ht1.
+    rewrite Hm. cbn [bind snd fst]. destruct res as [e | [op rhs]]; apply IH; try assumption.
+    unfold tys_wf. rewrite pfilter_vars_snoc. apply Forall_app. split; [exact Hw |].
+    unfold pfilter_vars. cbn [flat_map pf_arg]. rewrite app_nil_r.
+    destruct rhs as [[fr | n t] |]; try constructor; [| constructor].
+    cbn [snd]. eapply make_filter_expr_var_wf; [exact count_type_wf | exact Hm].
 Qed.
 
 Lemma fold_tags_ok : forall path fr sf ts tags errors path',
@@ -1425,7 +1432,9 @@ Definition fold_post (fs fs' : fstate) (r : errs + raw_fold) : Prop :=
   fs_inv fs' /\ fs_vid fs <= fs_vid fs' /\ fs_eid fs <= fs_eid fs' /\
   oh_vid_stack (fs_out fs') = oh_vid_stack (fs_out fs) /\
   (forall e, r = inl e -> e <> []) /\
-  (forall x, r = inr x -> fs_path fs' = fs_path fs /\ oh_comp_stack (fs_out fs') = oh_comp_stack (fs_out fs)).
+  (forall x, r = inr x -> fs_path fs' = fs_path fs /\ oh_comp_stack (fs_out fs') = oh_comp_stack (fs_out fs) /\
+     fold_wf x /\
+     (forall f, In f (glob_vals fs') -> In f (glob_vals fs) \/ In (defined_at f) (comp_vids (rf_comp x)))).
 
 Lemma make_fold_ok : forall component_of fs fold_group fold_eid edge_name edge_parameters parent_vid starting_vid starting_field,
   fs_inv fs ->
@@ -1451,7 +1460,7 @@ Proof.
       destruct (Q6 e eq_refl) as [_ [H | H]]; [exact H | rewrite H; exact Hne]. }
     split; [exact Q3 |]. split; [exact Q4 |]. split; [exact Q5 |].
     split; [intros e' E; inversion E; subst e'; exact (proj1 (Q6 e eq_refl)) |]. intros x E; discriminate E.
-  - destruct (Q7 component eq_refl) as [Hpath Hstack].
+  - destruct (Q7 component eq_refl) as [Hpath [Hstack [Hcwf Hcov]]].
     rewrite Hpath, path_pop_snoc. cbn [bind].
     cbn [set_path fs_tags].
     destruct Q1 as [Himp [_ Hpaths]]. rewrite Hpath in Himp.
@@ -1467,30 +1476,60 @@ Proof.
     assert (Hne3 : p0 :: ptl <> []) by discriminate.
     assert (Hfinal : forall tags4 (r' : errs + raw_fold), tags_ok tags4 (p0 :: ptl) ->
               (forall e, r' = inl e -> e <> []) ->
+              (forall x, r' = inr x -> fold_wf x /\ rf_comp x = component) ->
               fold_post fs (mkFS (fs_vid fs2) (fs_eid fs2) (p0 :: ptl) (fs_out fs2) tags4) r').
-    { intros tags4 r' Ht4 Hne4. unfold fold_post. cbn [fs_path fs_tags fs_out fs_vid fs_eid].
+    { intros tags4 r' Ht4 Hne4 Hwf4. unfold fold_post. cbn [fs_path fs_tags fs_out fs_vid fs_eid].
       split.
       { constructor; cbn [fs_path fs_tags fs_out fs_vid fs_eid]; [exact Ht4 |].
         apply oh_inv_split. split; [exact Q2 | rewrite Hstack; exact Hne]. }
       split; [exact Q3 |]. split; [exact Q4 |]. split; [exact Q5 |]. split; [exact Hne4 |].
-      intros x _. split; [symmetry; exact Hp | exact Hstack]. }
+      intros x Ex. destruct (Hwf4 x Ex) as [Hxw Hxc].
+      split; [symmetry; exact Hp |]. split; [exact Hstack |]. split; [exact Hxw |].
+      rewrite Hxc. exact Hcov. }
     destruct (fg_transform fold_group) as [g |] eqn:Hg.
     + destruct fold_group as [tr]. cbn [fg_transform] in Hg. subst tr.
       destruct (Hclean g eq_refl) as [Hre Hout]. rewrite Hre.
       destruct (fold_post_filters_ok (p0 :: ptl) sv (tg_filters g) tags3 []
                   (match fn_outputs sf return list front_error with
-                   | _ :: _ => [FEUnsupportedEdgeOutput (fn_name sf)] | [] => [] end) Ht3)
-        as [tags4 [post4 [errs4 [Hpf Ht4]]]].
+                   | _ :: _ => [FEUnsupportedEdgeOutput (fn_name sf)] | [] => [] end) Ht3 (Forall_nil _))
+        as [tags4 [post4 [errs4 [Hpf [Ht4 Hw4]]]]].
       cbn [set_tags set_path fs_path fs_tags fs_out fs_vid fs_eid].
       rewrite Hpf. cbn [bind]. cbn [set_tags set_path fs_path fs_tags fs_out fs_vid fs_eid].
       rewrite Hout. cbn [fold_outputs bind].
       cbn [set_tags set_out set_path fs_path fs_tags fs_out fs_vid fs_eid].
       pose proof (fold_tags_ok (p0 :: ptl) (FRFold (mkFF fold_eid sv)) sf (tg_tags g) tags4 errs4 (p0 :: ptl) Ht4 Hne3) as Ht5.
       destruct (snd (fold_tags tags4 (p0 :: ptl) (FRFold (mkFF fold_eid sv)) sf (tg_tags g) errs4));
-        do 2 eexists; (split; [reflexivity |]); (apply Hfinal; [exact Ht5 |]);
-        intros e9 E9; inversion E9; discriminate.
-    + cbn [bind]. destruct (fn_outputs sf); do 2 eexists; (split; [reflexivity |]); (apply Hfinal; [exact Ht3 |]);
-        intros e9 E9; inversion E9; discriminate.
+        do 2 eexists; (split; [reflexivity |]); (apply Hfinal; [exact Ht5 | |]);
+        try (intros e9 E9; inversion E9; discriminate);
+        intros x9 E9; inversion E9; subst x9; cbn [fold_wf fo_post rf_comp]; repeat split; assumption.
+    + cbn [bind]. destruct (fn_outputs sf); do 2 eexists; (split; [reflexivity |]); (apply Hfinal; [exact Ht3 | |]);
+        try (intros e9 E9; inversion E9; discriminate);
+        intros x9 E9; inversion E9; subst x9; cbn [fold_wf fo_post rf_comp]; repeat split; try assumption; constructor.
+Qed.
+
+Lemma nmap_insert_in : forall V k (v : V) m x, In x (nmap_insert k v m) -> x = (k, v) \/ In x m.
+Proof.
+  intros V k v m. induction m as [| [k' v'] r IH]; intros x H.
+  - destruct H as [<- | []]. left; reflexivity.
+  - cbn [nmap_insert] in H. destruct (N.compare k k').
+    + destruct H as [<- | H]; [left; reflexivity | right; right; exact H].
+    + destruct H as [<- | H]; [left; reflexivity | right; exact H].
+    + destruct H as [<- | H]; [right; left; reflexivity |].
+      destruct (IH x H) as [E | Hin]; [left; exact E | right; right; exact Hin].
+Qed.
+Lemma nmap_insert_keep : forall V k (v : V) m x, ~ In k (keys m) -> In x m -> In x (nmap_insert k v m).
+Proof.
+  intros V k v m. induction m as [| [k' v'] r IH]; intros x Hn H; [destruct H |].
+  cbn [nmap_insert]. destruct (N.compare k k') eqn:Hc.
+  - apply N.compare_eq in Hc. subst k'. exfalso. apply Hn. left; reflexivity.
+  - right. exact H.
+  - destruct H as [<- | H]; [left; reflexivity | right]. apply IH; [| exact H].
+    intros Hk. apply Hn. right; exact Hk.
+Qed.
+Lemma nmap_insert_new_elem : forall V k (v : V) m, In (k, v) (nmap_insert k v m).
+Proof.
+  intros V k v m. induction m as [| [k' v'] r IH]; [left; reflexivity |].
+  cbn [nmap_insert]. destruct (N.compare k k'); [left; reflexivity | left; reflexivity | right; exact IH].
 Qed.
 
 (* ---------------- one edge ---------------- *)
@@ -1542,13 +1581,14 @@ Lemma edge_step_ok : forall S current_vid pre node connection subfield sub_pre f
   fs_vid fs = next_vid + 1 -> fs_eid fs = next_eid + 1 ->
   (forall k, In k (keys (cs_vertices cs)) -> k < next_vid) ->
   (forall k, In k (keys (cs_edges cs)) -> k < next_eid) ->
+  (forall k, In k (keys (cs_folds cs)) -> k < next_eid) ->
   exists cs' fs' e,
     edge_step S current_vid (post_of pre node) connection subfield next_vid next_eid sub_pre
               (post_of sub_pre subfield) cs fs errors = Ok (cs', fs', errors ++ e) /\
     forall init top, oh_comp_stack (fs_out fs) = init ++ [top] -> step_post S cs fs init top cs' fs' e.
 Proof.
   intros S current_vid pre node connection subfield sub_pre folds' next_vid next_eid cs fs errors
-         HS IH Hin Hedge Hfoldclean Hty Hkids Hclean Hfs Hcs Hvid Heid Hvfresh Hefresh.
+         HS IH Hin Hedge Hfoldclean Hty Hkids Hclean Hfs Hcs Hvid Heid Hvfresh Hefresh Hffresh.
   unfold edge_step.
   destruct Hedge as [fd [Hfd [Hargs [Hdup Henum]]]].
   destruct (fc_fold connection) as [fold_group |] eqn:Hfold.
@@ -1592,16 +1632,25 @@ Proof.
            ++ eapply cs_inv_mono; eassumption.
            ++ intros He. apply app_eq_nil in He. destruct He as [_ He]. exfalso. exact (F5 e eq_refl He).
         -- eexists; exists fs', flags. split; [reflexivity |].
-           intros init top Hs. destruct (F6 fold eq_refl) as [Hp Hst]. constructor; auto.
-           ++ apply cs_inv_folds. eapply cs_inv_mono; eassumption.
-           ++ intros _. split; [exact Hp |]. exists top. split; [rewrite Hst; exact Hs | auto].
+           intros init top Hs. destruct (F6 fold eq_refl) as [Hp [Hst [Hfw Hcov]]].
+           assert (Hnk : ~ In next_eid (keys (cs_folds cs))).
+           { intros Hk. specialize (Hffresh _ Hk). lia. }
+           constructor; auto.
+           ++ apply cs_inv_folds; [eapply cs_inv_mono; eassumption |].
+              intros eid f Hf. apply nmap_insert_in in Hf. destruct Hf as [E | Hf].
+              ** inversion E; subst. split; [lia | exact Hfw].
+              ** destruct (ci_folds _ _ _ Hcs eid f Hf) as [H1 H2]. split; [lia | exact H2].
+           ++ cbn [cs_folds]. intros x Hx. apply nmap_insert_keep; assumption.
+           ++ intros _. split; [exact Hp |]. split; [exists top; split; [rewrite Hst; exact Hs | auto] |].
+              intros f Hf. destruct (Hcov f Hf) as [H | H]; [left; exact H |]. right. right.
+              exists next_eid, fold. split; [cbn [cs_folds]; apply nmap_insert_new_elem | exact H].
   - (* a plain edge *)
     destruct (nmap_insert_new_fresh _ next_eid (current_vid, next_vid, connection) (cs_edges cs)) as [edges [Hins Hchar]].
     { intros Hk. specialize (Hefresh _ Hk). lia. }
     rewrite Hins.
     set (cs1 := mkCS (cs_vertices cs) edges (cs_folds cs) (cs_prop_names cs) (cs_props cs)).
     assert (Hcs1 : cs_inv S cs1 fs).
-    { destruct Hcs as [C1 C2 C3 C4 C5 C6]. constructor; cbn [cs1 cs_vertices cs_edges cs_prop_names cs_props]; auto.
+    { destruct Hcs as [C1 C2 C3 C4 C5 C6 C7]. constructor; cbn [cs1 cs_vertices cs_edges cs_prop_names cs_props cs_folds]; auto.
       - intros k Hk. apply (keys_insert _ _ _ _ _ Hchar) in Hk. destruct Hk as [-> | Hk]; [lia | exact (C3 k Hk)].
       - intros eid from to conn Hx. apply Hchar in Hx. destruct Hx as [E | Hx]; [| exact (C4 _ _ _ _ Hx)].
         inversion E; subst. exists pre, node. split; [exact Hin |].
@@ -1612,7 +1661,7 @@ Proof.
     rewrite Hfill. cbn [bind].
     exists cs', fs', e. split; [reflexivity |].
     intros init top Hs. specialize (Hpost init top Hs).
-    destruct Hpost as [P1 P2 P3 P4 P5 P6 P7]. constructor; auto.
+    destruct Hpost as [P1 P2 P3 P4 P5 P6 P6f P7]. constructor; auto.
 Qed.
 
 (* ---------------- the loop over the selections of one vertex ---------------- *)
@@ -1698,6 +1747,7 @@ Proof.
       { intros st Hst. apply Hclean_head. rewrite Hsites. right; exact Hst. }
       { exact (ci_vfresh _ _ _ Hcs). }
       { exact (ci_efresh _ _ _ Hcs). }
+      { intros k Hk. apply in_keys in Hk. destruct Hk as [fo Hfo]. exact (proj1 (ci_folds _ _ _ Hcs k fo Hfo)). }
       rewrite Hes. cbn [bind].
       destruct (nonempty_snoc _ _ (oi_comp _ _ Hout)) as [i0 [t0 Hs0]].
       assert (Hsb0 : oh_comp_stack (fs_out fsb) = i0 ++ [t0]) by (cbn; rewrite Hcs1; exact Hs0).
@@ -1717,12 +1767,14 @@ Proof.
       apply (Hrest cs1 (set_out fs1 o2) e1); [| exact Hfs2 | exact Hcs2' |].
       * intros init top Hs.
         assert (Hsb : oh_comp_stack (fs_out fsb) = init ++ [top]) by (cbn; rewrite Hcs1; exact Hs).
-        pose proof (Hps init top Hsb) as P. destruct P as [P1 P2 P3 P4 P5 P6 P7].
+        pose proof (Hps init top Hsb) as P. destruct P as [P1 P2 P3 P4 P5 P6 P6f P7].
         constructor; auto.
         -- cbn in P3 |- *. lia.
         -- cbn in P4 |- *. lia.
-        -- intros He. destruct (P7 He) as [Hp [top' [Hc' Hf']]]. split; [exact Hp |].
-           exists top'. split; [cbn; rewrite Hcs2; exact Hc' | exact Hf'].
+        -- intros He. destruct (P7 He) as [Hp [[top' [Hc' Hf']] Hg']]. split; [exact Hp |].
+           split; [exists top'; split; [cbn; rewrite Hcs2; exact Hc' | exact Hf'] |].
+           unfold glob_vals in *. cbn [set_out fs_out] in *. rewrite Hgl2. intros f Hf.
+           destruct (Hg' f Hf) as [H | H]; [left; rewrite <- Hgl1; exact H | right; exact H].
       * apply (sp_vertices _ _ _ _ _ _ _ _ P0). exact Hin.
     + (* a property, or neither *)
       assert (Hprop : (builtin_scalar sub_post || mem sub_post (s_scalars S) || String.eqb n TYPENAME)%bool = true).
@@ -1753,16 +1805,19 @@ Proof.
       pose proof Hfs as [Htags Hout].
       destruct (nonempty_snoc _ _ (oi_comp _ _ Hout)) as [i0 [t0 Hs0]].
       destruct (prop_step_ok S cs fs current_vid pre node connection subfield ty errors i0 t0 Hfs Hcs Hin Hsig W Hfok Hs0)
-        as [cs1 [fs1 [errs1 [Hpstep [Hfs1 [Hcs1 [Ev [Ee [Ep [Est [Evs [Ees [_ [e1 He1]]]]]]]]]]]]]].
+        as [cs1 [fs1 [errs1 [Hpstep [Hfs1 [Hcs1 [Ev [Ee [Ep [Est [Evs [Ees [Efo [_ [Hgl [e1 He1]]]]]]]]]]]]]]]].
       rewrite Hpstep. cbn [bind]. subst errs1.
       apply (Hrest cs1 fs1 e1); [| exact Hfs1 | exact Hcs1 | rewrite Evs; exact Hin].
       intros init top Hs.
       destruct (prop_step_ok S cs fs current_vid pre node connection subfield ty errors init top Hfs Hcs Hin Hsig W Hfok Hs)
-        as [cs1' [fs1' [errs1' [Hpstep' [_ [_ [_ [_ [_ [_ [_ [_ [[top' [Hc' Hf']] _]]]]]]]]]]]]].
+        as [cs1' [fs1' [errs1' [Hpstep' [_ [_ [_ [_ [_ [_ [_ [_ [_ [[top' [Hc' Hf']] _]]]]]]]]]]]]]].
       rewrite Hpstep in Hpstep'. inversion Hpstep'; subst cs1' fs1' errs1'.
       constructor; auto; try lia.
       * rewrite Evs. auto.
-      * intros _. split; [exact Ep |]. exists top'. split; [exact Hc' |]. rewrite Evs. exact Hf'.
+      * rewrite Efo. auto.
+      * intros _. split; [exact Ep |]. split; [exists top'; split; [exact Hc' |]; rewrite Evs; exact Hf' |].
+        intros f Hf. destruct (Hgl f Hf) as [H | H]; [left; exact H |]. right. left.
+        rewrite H, Evs. apply in_keys. eexists; exact Hin.
 Qed.
 
 (* ---------------- fill_in_vertex_data ---------------- *)
@@ -1778,7 +1833,7 @@ Proof.
   unfold get_vertex_field_definitions. rewrite Hft. cbn [bind].
   set (cs1 := mkCS vertices (cs_edges cs) (cs_folds cs) (cs_prop_names cs) (cs_props cs)).
   assert (Hcs1 : cs_inv S cs1 fs).
-  { destruct Hcs as [C1 C2 C3 C4 C5 C6]. constructor; cbn [cs1 cs_vertices cs_edges cs_prop_names cs_props]; auto.
+  { destruct Hcs as [C1 C2 C3 C4 C5 C6 C7]. constructor; cbn [cs1 cs_vertices cs_edges cs_prop_names cs_props cs_folds]; auto.
     - intros k Hk. apply (keys_insert _ _ _ _ _ Hchar) in Hk. destruct Hk as [-> | Hk]; [exact Hlt | exact (C1 k Hk)].
     - eapply nmap_insert_new_nodup; eassumption.
     - intros eid from to conn Hx. destruct (C4 _ _ _ _ Hx) as [p [n [Hin He]]].
@@ -1789,10 +1844,284 @@ Proof.
   destruct (fill_loop_ok S vid pre node tdef folds conns HS Hft IH Hvalid Hclean cs1 fs [] Hin1 Hfs Hcs1)
     as [cs' [fs' [e [Hloop Hpost]]]].
   exists cs', fs', e. split; [exact Hloop |].
-  intros init top Hs. destruct (Hpost init top Hs) as [P1 P2 P3 P4 P5 P6 P7].
+  intros init top Hs. destruct (Hpost init top Hs) as [P1 P2 P3 P4 P5 P6 P6f P7].
   constructor; auto.
   - intros x Hx. apply P6. apply Hchar. right; exact Hx.
-  - intros He. destruct (P7 He) as [Hp [top' [Hc Hf]]]. split; [exact Hp |]. exists top'. split; [exact Hc |].
-    intros Hfr. apply Hf. intros g Hg. destruct (Hfr g Hg) as [c [Ec Hc']]. exists c. split; [exact Ec |].
+  - intros He. destruct (P7 He) as [Hp [[top' [Hc Hf]] Hg]]. split; [exact Hp |]. split; [| exact Hg].
+    exists top'. split; [exact Hc |].
+    intros Hfr. apply Hf. intros g Hgg. destruct (Hfr g Hgg) as [c [Ec Hc']]. exists c. split; [exact Ec |].
     apply (keys_insert _ _ _ _ _ Hchar). right; exact Hc'.
 Qed.
+
+(* ================================================================== D. make_ir_for_query *)
+Lemma snoc_is_cons : forall A (l : list A) x, exists a b, l ++ [x] = a :: b.
+Proof. intros A l x. destruct l; cbn; eexists; eexists; reflexivity. Qed.
+
+(* the per-site classes as one boolean (K-enum-argument, K-double-transform, any @output on a
+   @fold @transform, K-schema-duplicate-parameter, K-nonorderable-variable, K-one-of-max-depth) *)
+Definition site_dirty (S : schema) (st : site) : bool :=
+  (existsb (fun a => negb (enum_free (snd a))) (fc_args (st_conn st))
+   || match fc_fold (st_conn st) with
+      | Some (mkFG (Some g)) =>
+          (match tg_retransform g with Some _ => true | None => false end
+           || match tg_outputs g with [] => false | _ => true end)%bool
+      | _ => false
+      end
+   || match st_def st with
+      | Some fd =>
+          (has_dup (map a_name (SchemaAst.f_args fd))
+           || (negb (orderable_base (gbase (SchemaAst.f_ty fd))) && has_var_filter is_ordering (fn_filters (st_node st)))
+           || (Nat.leb 30 (gdepth (SchemaAst.f_ty fd)) && has_var_filter is_bulk (fn_filters (st_node st))))%bool
+      | None => false
+      end)%bool.
+
+Lemma site_dirty_clean : forall S st, site_dirty S st = false -> site_clean S st.
+Proof.
+  intros S st H. unfold site_dirty in H.
+  apply Bool.orb_false_iff in H. destruct H as [H H3].
+  apply Bool.orb_false_iff in H. destruct H as [H1 H2].
+  split; [| split].
+  - intros a Ha. destruct (enum_free (snd a)) eqn:E; [reflexivity |].
+    assert (existsb (fun a => negb (enum_free (snd a))) (fc_args (st_conn st)) = true).
+    { apply existsb_exists. exists a. split; [exact Ha | rewrite E; reflexivity]. }
+    congruence.
+  - intros g Hg. rewrite Hg in H2. apply Bool.orb_false_iff in H2. destruct H2 as [Ha Hb].
+    split; [destruct (tg_retransform g); [discriminate Ha | reflexivity] |
+            destruct (tg_outputs g); [reflexivity | discriminate Hb]].
+  - intros fd Hfd. rewrite Hfd in H3.
+    apply Bool.orb_false_iff in H3. destruct H3 as [H3 Hc].
+    apply Bool.orb_false_iff in H3. destruct H3 as [Ha Hb].
+    split; [exact Ha |]. split.
+    + intros Hv. rewrite Hv, Bool.andb_true_r in Hb. apply Bool.negb_false_iff in Hb. exact Hb.
+    + intros Hv. rewrite Hv, Bool.andb_true_r in Hc. apply Nat.leb_gt in Hc. exact Hc.
+Qed.
+
+(* the classes of make_ir_for_query, with K-fold-count-output-clash widened to "some
+   @fold @transform(count) carries an @output" *)
+Definition known2_strict (S : schema) (q : query) : bool :=
+  (k_root_typename q || k_fragment_under_property S q || existsb (site_dirty S) (query_sites S q))%bool.
+
+Theorem front_total : forall S q,
+  schema_ok S -> wf_query q = true -> known2_strict S q = false -> exists r, front S q = Ok r.
+Proof.
+  intros S q HS Hwf Hk. unfold known2_strict in Hk.
+  apply Bool.orb_false_iff in Hk. destruct Hk as [Hk Hdirty].
+  apply Bool.orb_false_iff in Hk. destruct Hk as [Hroot Hf3].
+  assert (Hclean : forall st, In st (query_sites S q) -> site_clean S st).
+  { intros st Hst. apply site_dirty_clean. destruct (site_dirty S st) eqn:E; [| reflexivity].
+    assert (existsb (site_dirty S) (query_sites S q) = true) by (apply existsb_exists; exists st; auto).
+    congruence. }
+  unfold front, validate_query_against_schema.
+  destruct (validate_field_spec S (q_field q) (s_qname S) [] (q_conn q) Hwf Hf3) as [rv [Hrv _]].
+  rewrite Hrv. cbn [bind]. destruct rv as [e | p']; [eexists; reflexivity |]. cbn [bind].
+  destruct (so_root S HS) as [troot Hroot_t]. rewrite Hroot_t. cbn [bind].
+  assert (Hcv : child_valid S (s_qname S) (q_conn q, q_field q)) by (exists [], p'; exact Hrv).
+  destruct (gfnt_ok S (s_qname S) troot (q_conn q) (q_field q) HS Hroot_t Hcv)
+    as [n [pre [post' [ty [Hg [Hn [Hcn [Hsig [W [Htn Hnt]]]]]]]]]].
+  rewrite Hg. cbn [bind].
+  (* the root field is not the meta field *)
+  assert (Etn : String.eqb (fn_name (q_field q)) TYPENAME = false).
+  { destruct (String.eqb (fn_name (q_field q)) TYPENAME) eqn:E; [| reflexivity].
+    exfalso. unfold k_root_typename in Hroot. rewrite E in Hroot. cbn [andb] in Hroot.
+    destruct (q_field q) as [nm al co ff oo tt conns tg] eqn:Eq. cbn [fn_name fn_connections] in *.
+    destruct (validate_inv _ _ _ _ _ _ _ _ _ _ _ _ _ Hrv) as [_ [Hc _]]. rewrite (Hc E) in Hroot. discriminate Hroot. }
+  destruct (Hnt Etn) as [fd [Hfd [Hinfd [Hpre [Hpost [Hbase [Hdepth [Hco Hkids]]]]]]]].
+  subst n. rewrite (get_edge_definition_ok _ _ _ _ Hfd). cbn [bind].
+  (* the root site *)
+  assert (Hsites : query_sites S q =
+                   mkSite (s_qname S) (q_conn q) (q_field q) (Some fd) O
+                   :: child_sites S post' (match fc_fold (q_conn q) with Some _ => 1%nat | None => O end)
+                        (fn_connections (q_field q))).
+  { unfold query_sites. destruct (q_field q) as [nm al co ff oo tt conns tg]. rewrite sites_unfold. cbv zeta.
+    cbn [fn_name] in Etn, Hfd. rewrite Etn, Hfd. subst post'. unfold post_of. cbn [fn_coerced_to fn_connections].
+    rewrite Hpre. destruct co; reflexivity. }
+  assert (Hhead : site_clean S (mkSite (s_qname S) (q_conn q) (q_field q) (Some fd) O)).
+  { apply Hclean. rewrite Hsites. left; reflexivity. }
+  destruct Hhead as [Henum [_ Hdef]]. cbn [st_conn st_def st_node] in Henum, Hdef.
+  destruct (Hdef fd eq_refl) as [Hdup _].
+  pose proof (so_root_edges S HS troot fd Hroot_t Hinfd) as Hgb.
+  destruct (make_edge_parameters_total fd (fc_args (q_conn q))
+              (proj2 (proj2 (so_fields S HS _ _ _ Hroot_t Hinfd)) Hgb) Hdup Henum) as [rp Hrp].
+  rewrite Hrp. cbn [bind].
+  assert (Hpt : has_type post' (s_vts S) = true).
+  { subst post'. unfold post_of. destruct (fn_coerced_to (q_field q)) as [co |] eqn:Eco.
+    - exact (proj2 (Hco co eq_refl)).
+    - rewrite Hpre. exact Hgb. }
+  set (fs0 := mkFS 2 1 [1] (oh_new 1 None) th_empty).
+  destruct (make_query_component_ok S
+              (fun cs fs => fill_in_vertex_data S cs fs 1 pre post' (q_field q)) fs0 1 (so_origins S HS))
+    as [fs' [rc [Hmqc Hpostc]]].
+  { intros cs0 fsx Hi0 Hc0 Hlt0 Hn0. subst post'.
+    apply (fill_in_vertex_data_spec S (q_field q) cs0 fsx 1 pre
+             (match fc_fold (q_conn q) with Some _ => 1%nat | None => O end) HS); try assumption.
+    intros st Hst. apply Hclean. rewrite Hsites. right; exact Hst. }
+  { repeat split; cbn; [discriminate | constructor]. }
+  { split; cbn; [intros v [] | intros v Hv; exfalso; apply Hv; reflexivity]. }
+  { cbn. lia. }
+  rewrite Hmqc. cbn [bind fst snd].
+  destruct Hpostc as [Q1 [Q2 [Q3 [Q4 [Q5 [Q6 Q7]]]]]].
+  destruct rc as [e | comp].
+  - destruct (Q6 e eq_refl) as [Hne _].
+    match goal with |- context [match ?x ++ e with _ => _ end] => destruct (x ++ e) eqn:E end;
+      [| eexists; reflexivity].
+    apply app_eq_nil in E. destruct E as [_ E]. contradiction.
+  - destruct (Q7 comp eq_refl) as [Hpath [Hstack [Hcwf Hcov]]].
+    destruct (fill_in_query_variables_total comp [] Hcwf (Forall_nil _)) as [fv [Hfv _]].
+    rewrite Hfv. cbn [bind].
+    unfold oh_finish. rewrite Q5, Hstack. cbn [fs0 fs_out oh_new oh_vid_stack oh_comp_stack bind].
+    destruct (check_for_duplicate_output_names (oh_global (fs_out fs'))) as [duplicates | outs] eqn:Hdupc.
+    + destruct (dup_error_np (collect_ir_vertices comp) duplicates) as [de Hde].
+      { intros k vs f Hin Hfin.
+        unfold check_for_duplicate_output_names in Hdupc.
+        destruct (duplicates_of _) as [| d ds] eqn:Hd; [discriminate Hdupc |]. inversion Hdupc; subst duplicates.
+        rewrite <- Hd in Hin. pose proof (duplicates_vals _ _ _ _ _ Hin Hfin) as Hv. rewrite flat_vals in Hv.
+        destruct (Hcov f Hv) as [H | H]; [destruct H | exact H]. }
+      rewrite Hde. cbn [bind].
+      assert (Hde' : exists x, de = [x]).
+      { unfold make_duplicated_output_names_error in Hde. destruct (rmap _ duplicates); cbn [bind] in Hde;
+          [inversion Hde; eexists; reflexivity | discriminate Hde]. }
+      destruct Hde' as [x ->].
+      match goal with |- context [?l ++ [x]] => destruct (snoc_is_cons _ l x) as [a0 [b0 E0]]; rewrite E0 end.
+      eexists; reflexivity.
+    + cbn [bind]. destruct rp as [e0 | p].
+      * pose proof (make_edge_parameters_inl _ _ _ Hrp) as Hne. destruct e0; [contradiction |].
+        destruct (th_finish (fs_tags fs')); cbn [app]; eexists; reflexivity.
+      * destruct (th_finish (fs_tags fs')); destruct (map FEFilterType (snd fv)); cbn [app]; eexists; reflexivity.
+Qed.
+
+(* ================================================================== E. documents, classes, executable schema check *)
+(* the reported classes are contained in the (wider) classes excluded by front_total *)
+Lemma existsb_mono : forall A (p q : A -> bool) l,
+  (forall x, p x = true -> q x = true) -> existsb p l = true -> existsb q l = true.
+Proof.
+  intros A p q l H Hp. apply existsb_exists in Hp. destruct Hp as [x [Hin Hx]].
+  apply existsb_exists. exists x. split; [exact Hin | apply H; exact Hx].
+Qed.
+
+Theorem known2_sub_strict : forall S q, known2 S q = true -> known2_strict S q = true.
+Proof.
+  intros S q H. unfold known2 in H. unfold known2_strict.
+  repeat (apply Bool.orb_true_iff in H; destruct H as [H | H]);
+    try (rewrite H; cbn; rewrite ?Bool.orb_true_r; reflexivity);
+    (apply Bool.orb_true_iff; right).
+  - (* enum argument *)
+    unfold k_enum_argument in H. eapply existsb_mono; [| exact H].
+    intros st Hst. cbv beta in Hst. unfold site_dirty. rewrite Hst. reflexivity.
+  - (* double transform *)
+    unfold k_double_transform in H. eapply existsb_mono; [| exact H].
+    intros st Hst. cbv beta in Hst. unfold site_dirty. destruct (fc_fold (st_conn st)) as [[[g |]] |]; try discriminate Hst.
+    destruct (tg_retransform g); [| discriminate Hst]. cbn. rewrite Bool.orb_true_r. reflexivity.
+  - (* non-orderable variable *)
+    unfold k_nonorderable_variable in H. eapply existsb_mono; [| exact H].
+    intros st Hst. cbv beta in Hst. unfold site_dirty. destruct (st_def st) as [fd |]; [| discriminate Hst].
+    rewrite Hst. rewrite !Bool.orb_true_r. reflexivity.
+  - (* one_of at the maximal depth *)
+    unfold k_one_of_max_depth in H. eapply existsb_mono; [| exact H].
+    intros st Hst. cbv beta in Hst. unfold site_dirty. destruct (st_def st) as [fd |]; [| discriminate Hst].
+    rewrite Hst. rewrite !Bool.orb_true_r. reflexivity.
+  - (* fold-count output clash *)
+    unfold k_fold_count_output_clash in H. apply Bool.andb_true_iff in H. destruct H as [H _].
+    eapply existsb_mono; [| exact H].
+    intros st Hst. cbv beta in Hst. unfold site_dirty. destruct (fc_fold (st_conn st)) as [[[g |]] |]; try discriminate Hst.
+    destruct (tg_outputs g); [discriminate Hst |]. cbn. rewrite !Bool.orb_true_r. reflexivity.
+  - (* duplicate schema parameter *)
+    unfold k_schema_duplicate_parameter in H. eapply existsb_mono; [| exact H].
+    intros st Hst. cbv beta in Hst. unfold site_dirty. destruct (st_def st) as [fd |]; [| discriminate Hst].
+    rewrite Hst. cbn. rewrite !Bool.orb_true_r. reflexivity.
+Qed.
+
+Definition known_strict (S : schema) (d : document) : bool :=
+  (known1 d || match parse_doc d with Ok (inr q) => known2_strict S q | _ => false end)%bool.
+
+Theorem known_sub_strict : forall S d, known S d = true -> known_strict S d = true.
+Proof.
+  intros S d H. unfold known in H. unfold known_strict.
+  apply Bool.orb_true_iff in H. destruct H as [H | H]; [rewrite H; reflexivity |].
+  apply Bool.orb_true_iff. right. destruct (parse_doc d) as [[e | q] | s]; try discriminate H.
+  apply known2_sub_strict. exact H.
+Qed.
+
+(* frontend::parse_doc = parse_document followed by make_ir_for_query *)
+Theorem front_doc_total : forall S d,
+  schema_ok S -> known_strict S d = false -> exists r, front_doc S d = Ok r.
+Proof.
+  intros S d HS Hk. unfold known_strict in Hk. apply Bool.orb_false_iff in Hk. destruct Hk as [H1 H2].
+  destruct (parse_document_total d) as [r Hr].
+  { unfold Known1. rewrite H1. discriminate. }
+  unfold front_doc. rewrite Hr. rewrite Hr in H2. destruct r as [e | q]; [eexists; reflexivity |].
+  destruct (front_total S q HS (parse_doc_wf d q Hr) H2) as [x Hx]. rewrite Hx.
+  destruct x; eexists; reflexivity.
+Qed.
+
+(* ---------------- an executable check of schema_ok ---------------- *)
+Definition arg_okb (a : arg) : bool :=
+  match from_type (a_ty a) with
+  | Ok t => match a_default a with
+            | Default v => match ty_valid t v with Ok true => true | _ => false end
+            | BadDefault => false
+            | NoDefault => true
+            end
+  | Panic _ => false
+  end.
+Definition origin_okb (S : schema) (tn fn : string) : bool :=
+  match omap_get (tn, fn) (s_origins S) with
+  | Some (Single a) => match s_field S a fn with Some _ => true | None => false end
+  | Some (Multiple _) => true
+  | None => false
+  end.
+Definition field_okb (S : schema) (t : tdef) (f : fld) : bool :=
+  ((builtin_scalar (gbase (SchemaAst.f_ty f)) || has_type (gbase (SchemaAst.f_ty f)) (s_vts S))
+   && match from_type (SchemaAst.f_ty f) with Ok _ => true | Panic _ => false end
+   && (negb (has_type (gbase (SchemaAst.f_ty f)) (s_vts S)) || forallb arg_okb (SchemaAst.f_args f))
+   && origin_okb S (t_name t) (SchemaAst.f_name f)
+   && (negb (String.eqb (t_name t) (s_qname S)) || has_type (gbase (SchemaAst.f_ty f)) (s_vts S)))%bool.
+Definition schema_okb (S : schema) : bool :=
+  (has_type (s_qname S) (s_vts S) && negb (has_type TYPENAME (s_vts S))
+   && forallb (fun t => forallb (field_okb S t) (t_fields t)) (s_vts S))%bool.
+
+Lemma find_type_in : forall n ts t, find_type n ts = Some t -> In t ts.
+Proof.
+  intros n ts t. induction ts as [| x r IH]; intros H; [discriminate H |].
+  cbn [find_type] in H. destruct (String.eqb (t_name x) n); [inversion H; left; reflexivity | right; apply IH; exact H].
+Qed.
+
+Theorem schema_okb_sound : forall S, schema_okb S = true -> schema_ok S.
+Proof.
+  intros S H. unfold schema_okb in H.
+  apply Bool.andb_true_iff in H. destruct H as [H Hall].
+  apply Bool.andb_true_iff in H. destruct H as [Hroot Htn].
+  rewrite forallb_forall in Hall.
+  assert (Hfield : forall tn t f, find_type tn (s_vts S) = Some t -> In f (t_fields t) -> field_okb S t f = true).
+  { intros tn t f Ht Hf. pose proof (Hall t (find_type_in _ _ _ Ht)) as Hx. rewrite forallb_forall in Hx. apply Hx; exact Hf. }
+  constructor.
+  - unfold has_type in Hroot. destruct (find_type (s_qname S) (s_vts S)) as [t |]; [exists t; reflexivity | discriminate Hroot].
+  - intros tn t f Ht Hf. pose proof (Hfield tn t f Ht Hf) as Hx. unfold field_okb in Hx.
+    repeat (apply Bool.andb_true_iff in Hx; destruct Hx as [Hx ?]).
+    split; [apply Bool.orb_true_iff in Hx; exact Hx |]. split.
+    + destruct (from_type (SchemaAst.f_ty f)) as [ty |]; [exists ty; reflexivity | discriminate].
+    + intros Hv. rewrite Hv in *. cbn [negb orb] in *. rewrite Forall_forall. intros a Ha.
+      match goal with Hfa : forallb arg_okb _ = true |- _ => rewrite forallb_forall in Hfa; pose proof (Hfa a Ha) as Hok end.
+      unfold arg_okb in Hok. unfold arg_ok. destruct (from_type (a_ty a)) as [ty |]; [| discriminate Hok].
+      exists ty. split; [reflexivity |]. destruct (a_default a) as [| | v]; [exact I | discriminate Hok |].
+      destruct (ty_valid ty v) as [[|] |]; [reflexivity | discriminate Hok | discriminate Hok].
+  - intros t f Ht Hf. pose proof (Hfield _ t f Ht Hf) as Hx. unfold field_okb in Hx.
+    repeat (apply Bool.andb_true_iff in Hx; destruct Hx as [Hx ?]).
+    rewrite (find_type_name _ _ _ Ht), String.eqb_refl in *. cbn [negb orb] in *. assumption.
+  - intros tn fn Hdef. unfold s_field in Hdef.
+    destruct (find_type tn (s_vts S)) as [t |] eqn:Ht; [| exfalso; apply Hdef; reflexivity].
+    destruct (find_field fn (t_fields t)) as [f |] eqn:Hf; [| exfalso; apply Hdef; reflexivity].
+    destruct (find_field_name _ _ _ Hf) as [Hn Hin].
+    pose proof (Hfield tn t f Ht Hin) as Hx. unfold field_okb in Hx.
+    repeat (apply Bool.andb_true_iff in Hx; destruct Hx as [Hx ?]).
+    match goal with Ho : origin_okb _ _ _ = true |- _ => unfold origin_okb in Ho; rewrite (find_type_name _ _ _ Ht), Hn in Ho end.
+    destruct (omap_get (tn, fn) (s_origins S)) as [[a | m] |]; try discriminate.
+    + exists (Single a). split; [reflexivity |]. destruct (s_field S a fn); [discriminate | discriminate].
+    + exists (Multiple m). split; [reflexivity | exact I].
+  - apply Bool.negb_true_iff in Htn. exact Htn.
+Qed.
+
+(* the witness schema satisfies the hypotheses of front_total *)
+Lemma mini_schema_ok : schema_ok mini_schema.
+Proof. apply schema_okb_sound. vm_compute. reflexivity. Qed.
+Lemma q_rich_not_known_strict : known_strict mini_schema q_rich = false.
+Proof. vm_compute. reflexivity. Qed.
